@@ -381,6 +381,15 @@ class EventFlow:
                         outs.append((tgt, done or (truth == pol)))
                     zero_listed = any(val == "0" for val, _ in term[2])
                     outs.append((term[3], done or ((True if zero_listed else False) == pol)))
+                elif (
+                    term[0] == "switch" and len(term) >= 7 and isinstance(term[4], str) and term[4].endswith("option::Option")
+                    and isinstance(term[6], list) and term[6] and term[6][0] in H2 and (len(term[6]) < 2 or term[6][1] == "")
+                ):
+                    # `match it.next() { None => .., Some(e) => .. }` (a `for` loop): on the None arm the Option holds no event
+                    listed = [val for val, _ in term[2]]
+                    for val, tgt in term[2]:
+                        outs.append((tgt, done or val == "None"))
+                    outs.append((term[3], done or "None" not in listed))
                 else:
                     outs = [(s, done) for s in succ]
                 for s, d2 in outs:
@@ -618,7 +627,36 @@ def norm(e, env, depth=0):
         return Term("unk", text=show(e))
     if k == "if" and e.get("else") is not None and e["cond"]["k"] != "letcond":
         return Term("if", cond=e["cond"], a=norm(e["then"], env, depth + 1), b=norm(e["else"], env, depth + 1))
+    if k == "call" and e["f"]["k"] == "path" and len(e["f"]["segs"]) == 1 and e["f"]["segs"][0] in getattr(env, "helpers", {}):
+        # a private free function of the module: read through (`fn share(event: &DpEvent, p: &DpParameters) -> f64 { if event.is_no_op() { return 1.; } 1. - p.s }`)
+        h = env.helpers[e["f"]["segs"][0]]
+        names = [pat_ident(p["pat"]) for p in h.params if not p.get("self")]
+        if None not in names and len(names) == len(e["args"]):
+            from .canon import subst
+
+            body = _early_return_as_if(subst(h.body, {n: strip_wrappers(a) for n, a in zip(names, e["args"])}))
+            if body is not None:
+                return norm(body, env, depth + 1)
     return Term("unk", text=show(e))
+
+
+def _early_return_as_if(b):
+    """`{ if c { return X; } Y }` -> `if c { X } else { Y }`; a block of one tail expression -> that expression; else None"""
+    if b.get("k") != "block":
+        return b
+    stmts = b["stmts"]
+    if not stmts:
+        return None
+    st = stmts[0]
+    if len(stmts) == 1:
+        return st["e"] if st["k"] == "expr" and not st.get("semi") else None
+    if st["k"] == "expr" and st["e"]["k"] == "if" and st["e"].get("else") is None and st["e"]["cond"]["k"] != "letcond":
+        tb = st["e"]["then"]
+        if tb["k"] == "block" and len(tb["stmts"]) == 1 and tb["stmts"][0]["k"] == "expr" and tb["stmts"][0]["e"]["k"] == "return" and tb["stmts"][0]["e"].get("e") is not None:
+            rest = _early_return_as_if(dict(b, stmts=stmts[1:]))
+            if rest is not None:
+                return {"k": "if", "l": st["e"].get("l", 0), "cond": st["e"]["cond"], "then": tb["stmts"][0]["e"]["e"], "else": rest}
+    return None
 
 
 def budget_le(small, big):
